@@ -424,6 +424,22 @@ fn lazy_case(rng: &mut Rng, case: u64, dir: &str, ctl: &Arc<(Mutex<Ctl>, Condvar
         tbl.push((k, v, class(rec.ttl_expiry)));
     }
     tbl.sort();
+    // C14 at quiescence: a range query over everything returns exactly the keys a read finds
+    if verdict == "ok" {
+        let mut readable: Vec<Vec<u8>> = store.verif_hash_keys().into_iter().filter(|k| store.get(k).is_ok()).collect();
+        readable.sort();
+        match store.range_query(&[], &[0xff; 64], 1 << 20) {
+            Ok(rows) => {
+                let got: Vec<Vec<u8>> = rows.into_iter().map(|(k, _)| k).collect();
+                if got != readable {
+                    let missing: Vec<u64> = readable.iter().filter(|k| !got.contains(k)).map(|k| index_of(k)).collect();
+                    let extra: Vec<u64> = got.iter().filter(|k| !readable.contains(k)).map(|k| index_of(k)).collect();
+                    verdict = format!("FAIL range-query-at-quiescence-differs-from-the-readable-keys missing={missing:?} extra={extra:?}");
+                }
+            }
+            Err(e) => verdict = format!("FAIL range-query-error {e}"),
+        }
+    }
     let line = format!(
         "{} final={} n={} removed={}",
         results.join(";"),
